@@ -1043,6 +1043,18 @@ func (ex *Exec) convert(v Value, from, to types.Type) Value {
 	if bv, ok := v.(BytesView); ok && isStringType(to) {
 		return bv.t
 	}
+	if jb, ok := v.(*jsonBytes); ok && isStringType(to) {
+		if jb.tree == nil {
+			return ""
+		}
+		if jb.tree.kind == jStr {
+			return lower(mkConcat(mkStr("\""), strTerm(jb.tree.v), mkStr("\"")))
+		}
+		if s, ok := renderConcrete(jb.tree); ok {
+			return s
+		}
+		panic(pathAbort{"unsupported: string(data) of a non-scalar JSON value"})
+	}
 	if _, ok := from.Underlying().(*types.Slice); ok && isStringType(to) {
 		s := v.(Slice)
 		b := make([]byte, s.Len)
@@ -1127,6 +1139,13 @@ func (ex *Exec) builtin(b *ssa.Builtin, args []Value, cc *ssa.CallCommon, site s
 				return lower(x.n)
 			}
 			return int64(0)
+		case *jsonBytes:
+			if x.tree == nil {
+				return int64(0)
+			}
+			return int64(2)
+		case *textBytes:
+			return int64(len(x.lines))
 		case BytesView:
 			return lower(mkStrLen(x.t))
 		case *Map:
@@ -1234,6 +1253,11 @@ func (ex *Exec) builtin(b *ssa.Builtin, args []Value, cc *ssa.CallCommon, site s
 		return nil
 	case "print", "println":
 		return nil
+	case "ssa:wrapnilchk":
+		if p, ok := args[0].(Ptr); ok && p.IsNil() {
+			panic(goPanic{"value method called using nil pointer", site})
+		}
+		return args[0]
 	}
 	panic(pathAbort{"unsupported: builtin " + b.Name() + fmt.Sprintf(" %T", args[0])})
 }
